@@ -25,7 +25,7 @@ LEVEL = "exploration"
 TECHNIQUE = ("bounded exhaustive enumeration of token sequences x indentation levels x widths on the real wrap_line "
              "(Python and Fortran padding); re-tokenisation oracle, Python tokenize/ast, gfortran -fsyntax-only on a "
              "statement corpus")
-RULE = ("lines are ' '.join(tokens) for every token sequence of length <= L over the 17-token alphabet, crossed with 3 "
+RULE = ("lines are ' '.join(tokens) for every token sequence of length <= L over the 18-token alphabet, crossed with 3 "
         "levels x 4 widths x 2 targets; plus a corpus of valid statements at every width 10..90; non-trivial = calls "
         "whose output has more than one line; distinct_outcomes = distinct wrapped layouts")
 ASSUMPTIONS = ["the tokenizers below implement the string-literal rules of each target (Python: backslash escapes; "
@@ -37,7 +37,7 @@ LEVEL_NOTE = "Trusted: the two 25-line tokenizers, Python's tokenize/ast, gfortr
 
 LONG = "x" * 90
 TOKENS = ["a", "abcdefghijklmnopqrstuvwxyz_012", "=", "+", "f(x,", "y)", "'a b'", "'a  b'", "'a\"b c'", "QESC",
-          "f('a b')", "k='a  b'", '"a b"', 'g("a  b",', "(1,", "2)", LONG]
+          "f('a b')", "k='a  b'", '"a b"', 'g("a  b",', "(1,", "2)", LONG, "QBS"]
 LEVELS = [0, 1, 3]
 WIDTHS = [12, 20, 40, 80]
 
@@ -45,6 +45,9 @@ WIDTHS = [12, 20, 40, 80]
 def concrete(tok, target):
     if tok == "QESC":
         return "'a\\'b c'" if target == "python" else "'a''b c'"
+    if tok == "QBS":
+        # a literal whose last character is a backslash: escaped in Python, ordinary in Fortran
+        return "'d\\\\'" if target == "python" else "'d\\'"
     return tok
 
 
